@@ -112,6 +112,10 @@ def open_ds(ds, path):
             d["g"] = np.dtype("float32")
         if "id" in d:
             d["id"] = np.dtype("float64")
+        # (the override must not depend on the epoch at which the handle is opened: the statistics-typed columns get their
+        #  nullable / float dtype whatever the null counts of the moment say)
+        d["o"] = pd.Int64Dtype() if ds["pandas_nulls"] else np.dtype("float64")
+        d["ob"] = pd.BooleanDtype() if ds["pandas_nulls"] else np.dtype("float64")
         return fastparquet.ParquetFile(path, pandas_nulls=ds["pandas_nulls"], dtypes=d)
     return fastparquet.ParquetFile(path, pandas_nulls=ds["pandas_nulls"])
 
@@ -682,6 +686,16 @@ def stream(ctx, nds, nprog, register_obligations=True, stream_name="handle-progr
     jobs = []
     corners = [{"scheme": "simple", "sizes": [5, 3, 7, 2], "nullrgs": [0]}, {"scheme": "hive", "part": True, "sizes": [4, 2, 6], "nullrgs": [1]},
                {"scheme": "hive", "part": False, "sizes": [9, 1, 3, 5], "nullrgs": [0, 2]}, {"scheme": "simple", "sizes": [1, 12, 2], "nullrgs": [], "pandas_nulls": False}]
+    # corpus first: minimised programs that failed on trees with a defect of each offender class (corpus/<ID>/hp_*.json)
+    cdir = os.path.join(C.VERIF, "corpus", ctx.pid)
+    ncorpus = 0
+    if os.path.isdir(cdir):
+        for fn in sorted(os.listdir(cdir)):
+            if fn.startswith("hp_") and fn.endswith(".json"):
+                c = json.load(open(os.path.join(cdir, fn)))["handle_program"]
+                jobs.append({"ds": c["ds"], "progs": [c["prog"]], "inventory": inv, "aimed": False, "corpus": fn})
+                ncorpus += 1
+    ctx.extra[stream_name + ".corpus_programs"] = ncorpus
     for i in range(nds):
         ds = gen_dataset(rng, corners[i] if i < len(corners) else None)
         progs = [gen_program(rng, ds) for _ in range(nprog)]
@@ -706,7 +720,7 @@ def stream(ctx, nds, nprog, register_obligations=True, stream_name="handle-progr
                 raise RuntimeError("handle program harness error: %s\n%s" % (json.dumps(ds), pr["error"]))
             case = {"handle_program": {"ds": ds, "prog": pr["prog"]}}
             ctx.case(case, trivial=False)
-            ctx.count("stream", stream_name + ("/aimed" if job["aimed"] else ""))
+            ctx.count("stream", stream_name + ("/aimed" if job["aimed"] else ("/corpus" if job.get("corpus") else "")))
             res_ = pr["result"]
             for k, v in res_["counts"].items():
                 ctx.dist.setdefault(stream_name + ".steps", {})
